@@ -177,6 +177,14 @@ impl Property for C13 {
                         obs.label("singular");
                     }
                     obs.expect(inv.is_none() == (det == 0), "inverse<i64>|none-iff-singular", || format!("m {:?} det {det} inverse {:?}", m, inv));
+                    if det.abs() > 1 {
+                        // not singular, but the inverse has no integer entries: whatever is returned as Some must still undo t
+                        if let Some(i) = inv {
+                            obs.label("integer-matrix-without-integer-inverse");
+                            let undoes = t.compose(&i).is_identity() && pts.iter().all(|p| { let co = Coord { x: p.0, y: p.1 }; i.apply(t.apply(co)) == co });
+                            obs.expect(undoes, "inverse<i64>|not-an-inverse|non-unimodular-integer-matrix", || format!("m {:?} det {det} inverse {:?}", m, i));
+                        }
+                    }
                     if det.abs() == 1 {
                         obs.label("unimodular");
                         if let Some(i) = inv {
